@@ -25,8 +25,9 @@ Latitude (what the statement does not fix, so the oracle does not demand it):
 Side regimes get their own mechanism keys (structural features of the instance, never seeds or values):
  - ':absent-element'  some generating variable is exactly zero (element absent from the generating circuit; the
    statement's quantifier speaks of magnitudes over six decades, exact zero is its boundary);
- - 'real-inv-placeholder-constants'  the matrix-inversion real test leaves hard-coded 1e-18 / 1e18 placeholders in C / L;
-   instances where the harness predicts their effect above ARTEFACT_MAX are judged under that key.
+ - '<real-inv|imaginary-inv>-placeholder-constants'  the matrix-inversion real and imaginary tests leave hard-coded
+   1e-18 / 1e18 placeholders in C, L (real-inv) or the parallel R (imaginary-inv on admittance); instances where the
+   harness predicts their effect above ARTEFACT_MAX (kk_model.placeholder_artefact) are judged under that key.
  - cnls cells (Y, any options) and (Z, add_capacitance) have their own keys 'cnls-admittance-local-minimum' and
    'cnls-impedance-capacitance-local-minimum' (optimiser stalls from the fixed start values).
 """
@@ -339,7 +340,7 @@ def check_instance(inst):
         elif test == "cnls" and add_c:
             fk = "C07/cnls-impedance-capacitance-local-minimum"
         elif placeholder:
-            fk = f"C07/real-inv-placeholder-constants:{rep}"
+            fk = f"C07/{test}-placeholder-constants:{rep}"
         out["finding_cell"] = fk
         res_all = max(obs["res"], obs.get("res_own", 0.0))
         if not (res_all <= rt):
